@@ -747,10 +747,12 @@ func (cfg *Config) wordFields(wps []syntax.WordPart) ([][]fieldPart, error) {
 			s := wp.Value
 			if i == 0 {
 				prefix, rest := cfg.expandUser(s, len(wps) > 1)
-				curField = append(curField, fieldPart{
-					quote: quoteSingle,
-					val:   prefix,
-				})
+				if prefix != "" {
+					curField = append(curField, fieldPart{
+						quote: quoteSingle,
+						val:   prefix,
+					})
+				}
 				s = rest
 			}
 			if strings.Contains(s, "\\") {
@@ -772,7 +774,8 @@ func (cfg *Config) wordFields(wps []syntax.WordPart) ([][]fieldPart, error) {
 				}
 				s = s[start:]
 			}
-			if s != "" || len(curField) == 0 {
+			if s != "" {
+				// An empty literal, as left by brace expansion, makes no field.
 				curField = append(curField, fieldPart{val: s})
 			}
 		case *syntax.SglQuoted:
